@@ -83,6 +83,29 @@ def trajectory(env, np_seed, plan_seed, n_steps):
     return m.hexdigest()[:20]
 
 
+def planner_trajectory(env, np_seed, plan_seed, n_steps):
+    """Look-ahead from a kept checkpoint: a chain of generative steps that
+    starts at the state object the environment holds after reset."""
+    import numpy as np
+    np.random.seed(np_seed)
+    rng = random.Random(plan_seed)
+    m = hashlib.sha256()
+    state = env._planner_checkpoint
+    flat = env.flat_actions
+    nvec = None if flat else [int(v) for v in env.action_space.nvec]
+    for _ in range(n_steps):
+        if flat:
+            a = rng.randrange(env.action_space.n)
+        else:
+            a = [rng.randrange(v) for v in nvec]
+        nxt, obs, r, done, info = env.generative_step(state, a)
+        m.update(np.asarray(nxt.tensor).tobytes())
+        m.update(np.asarray(obs.tensor).tobytes())
+        m.update(repr((float(r).hex(), bool(done), canon(info))).encode())
+        state = nxt
+    return m.hexdigest()[:20]
+
+
 def run_job(job):
     """-> list of digests (all must be equal everywhere)."""
     import numpy as np
@@ -120,6 +143,18 @@ def run_job(job):
         env.reset()
         out.append(trajectory(env, job["np_seed"], job["plan_seed"],
                               job["steps"]))
+        if len(set(out)) == 1:
+            # planner-style use: the same seeded look-ahead replayed twice
+            # from one kept checkpoint (digests are only compared with each
+            # other, so they get their own prefix)
+            env.reset()
+            env._planner_checkpoint = env.current_state
+            a = planner_trajectory(env, job["np_seed"], job["plan_seed"],
+                                   min(job["steps"], 120))
+            b = planner_trajectory(env, job["np_seed"], job["plan_seed"],
+                                   min(job["steps"], 120))
+            if a != b:
+                out.append("PLANNER-REPLAY-DIFFERS:" + a + "/" + b)
         return out
     raise ValueError(kind)
 
